@@ -23,7 +23,7 @@ Theorem C24_literal_roundtrip_null : forall bias,
 Proof. exact literal_roundtrip_null. Qed.
 Print Assumptions C24_literal_roundtrip_null.
 
-(* all strings that a VTL script can contain (STRING_CONSTANT admits no double quote) *)
+(* all strings that a VTL script can contain (STRING_CONSTANT has no way to hold a double quote) *)
 Theorem C24_literal_roundtrip_string : forall bias s, has_dq s = false ->
   option_map parse_literal (render_literal bias (LStr s)) = Some (Some (LStr s)).
 Proof. exact literal_roundtrip_string. Qed.
